@@ -50,6 +50,7 @@ type Case struct {
 	CancelAt   int    `json:",omitempty"`
 	Gate       int    `json:",omitempty"`
 	Layers     int    `json:",omitempty"`
+	XGraph     bool   `json:",omitempty"` // graph from imgen.RandomX: inline data, OCI artifact manifests, schema1
 }
 
 type world struct {
@@ -93,7 +94,11 @@ func build(c Case, dir string) (*world, error) {
 		g.Root = g.Image(true, cfg, []*imgen.Node{l1, l2}, map[int]bool{1: true}, nil, uniq)
 		w.g = g
 	} else {
-		w.g = imgen.Random(r, uniq)
+		if c.XGraph {
+			w.g = imgen.RandomX(r, uniq)
+		} else {
+			w.g = imgen.Random(r, uniq)
+		}
 	}
 	feat := memreg.Features{Delete: true, TagDelete: true, MountGrant: c.Mount, NoHeadDigest: c.NoHeadDig, ReferrersAPI: c.RefAPI, ValidateChildren: false}
 	w.src = memreg.New("src.example", feat)
@@ -784,7 +789,7 @@ func run(c Case, dir string, res *lib.Result) string {
 			if o == nil {
 				o = &blobObs{}
 			}
-			blobsT = append(blobsT, fmt.Sprintf("mkB false %s %s %s %s %s %s %s", lib.CoqBool(w.tgt0[d]), lib.CoqBool(c.Pair == "samereg"), lib.CoqBool(c.Mount), lib.CoqBool(len(n.Body) == 0),
+			blobsT = append(blobsT, fmt.Sprintf("mkB false %s %s %s %s %s %s %s", lib.CoqBool(w.tgt0[d]), lib.CoqBool(c.Pair == "samereg"), lib.CoqBool(c.Mount), lib.CoqBool(len(n.Body) == 0 || n.Inline),
 				lib.CoqBool(o.got), lib.CoqBool(o.up), lib.CoqBool(o.mounted)))
 		}
 	}
@@ -811,6 +816,7 @@ func genCase(r *lib.Rand, focus string) Case {
 	c.NoHeadDig = r.Chance(12)
 	c.RefAPI = r.Bool()
 	c.Latency = r.Chance(60)
+	c.XGraph = r.Chance(30)
 	k := r.Intn(100)
 	faultShare := 25
 	if focus == "C04" {
@@ -841,7 +847,7 @@ func nontrivial(c Case) bool {
 func Run(focus string) func(o lib.Opts) {
 	return func(o lib.Opts) {
 		res := lib.NewResult(focus, o.Tier, o.Seed)
-		res.Rule = "one splitmix64 stream: image graphs (single image, index of 2-4 images, nested index with a child shared by two sub-indexes, Docker and OCI media types, shared/duplicate/empty/foreign layers, blob-typed index entries, referrers incl. referrer of referrer) x endpoint pairing {two registries, same registry with mount granted/refused, same repository, registry->layout, layout->registry, layout->layout} x target pre-population {empty, random subset, identical image, stale tag} x options {recursive, referrers, digest-tags, include-external} x registry features {HEAD digest header, referrers API} x per-request latencies; fault runs inject 1-9 faults {500, 404, connection reset, 429} from request k or cancel the context at request/callback k, gate runs hold the throttle with blocked blob copies and cancel; non-trivial = anything but a plain fresh registry-to-registry copy; distinct by case. Focus " + focus
+		res.Rule = "one splitmix64 stream: image graphs (single image, index of 2-4 images, nested index with a child shared by two sub-indexes, Docker and OCI media types, shared/duplicate/empty/foreign layers, blob-typed index entries, referrers incl. referrer of referrer; 30% from the extended generator: descriptors with inline data, OCI artifact manifests as root / index entry / referrer, index entries of unknown type that are plain blobs, Docker schema1 images unsigned and signed) x endpoint pairing {two registries, same registry with mount granted/refused, same repository, registry->layout, layout->registry, layout->layout} x target pre-population {empty, random subset, identical image, stale tag} x options {recursive, referrers, digest-tags, include-external} x registry features {HEAD digest header, referrers API} x per-request latencies; fault runs inject 1-9 faults {500, 404, connection reset, 429} from request k or cancel the context at request/callback k, gate runs hold the throttle with blocked blob copies and cancel; non-trivial = anything but a plain fresh registry-to-registry copy; distinct by case. Focus " + focus
 		dir := o.Out
 		if o.Replay != "" {
 			var f struct{ Case Case }
@@ -890,6 +896,14 @@ func Run(focus string) func(o lib.Opts) {
 			for i := uint64(0); i < 8; i++ {
 				all = append(all, Case{Kind: "stallcancel", Seed: 4300 + i, Pair: "reg2dir"})
 			}
+		}
+		if focus == "C03" || focus == "C04" {
+			// fixed: an OCI artifact manifest listed in an index, source = layout: a fault inside its copy ended in the
+			// blob fall-back and the copy reported success without the artifact's content (minimised from the extended generator)
+			all = append(all, Case{Kind: "fault", Seed: 5044, Pair: "dir2reg", XGraph: true, FaultAt: 9, FaultKind: "reset", FaultN: 5},
+				Case{Kind: "fault", Seed: 5051, Pair: "dir2reg", XGraph: true, FaultAt: 5, FaultKind: "reset", FaultN: 5},
+				Case{Kind: "fault", Seed: 5094, Pair: "dir2reg", XGraph: true, FaultAt: 4, FaultKind: "reset", FaultN: 5},
+				Case{Kind: "fault", Seed: 5193, Pair: "dir2reg", XGraph: true, FaultAt: 4, FaultKind: "reset", FaultN: 5})
 		}
 		if focus == "C14" {
 			all = append(all, Case{Kind: "copy", Seed: 11, Pair: "regreg", PrepopAll: true, NoHeadDig: true}, Case{Kind: "copy", Seed: 12, Pair: "regreg", PrepopAll: true},
